@@ -435,3 +435,8 @@ for _name, _file, _o, _n, _props, _pairs in BENIGN:
 VARIANTS += [
     ("C13-rs-round-early", "C13", RSP, "                                    let extra_seconds =\n                                        (extra_minutes - extra_full_minutes) * 60.0;\n                                    let extra_full_seconds = extra_seconds.trunc();\n                                    duration.seconds += extra_full_seconds as u32;\n                                    let micro_extra = ((extra_seconds - extra_full_seconds)\n                                        * 1_000_000.0)\n                                        .round()\n                                        as u32;\n                                    duration.microseconds += micro_extra;\n                                }\n                            }\n                            'M' => {", "                                    let extra_seconds =\n                                        ((extra_minutes - extra_full_minutes) * 60.0).round();\n                                    let extra_full_seconds = extra_seconds.trunc();\n                                    duration.seconds += extra_full_seconds as u32;\n                                    let micro_extra = ((extra_seconds - extra_full_seconds)\n                                        * 1_000_000.0)\n                                        .round()\n                                        as u32;\n                                    duration.microseconds += micro_extra;\n                                }\n                            }\n                            'M' => {", "ROUND-LAST"),
 ]
+
+VARIANTS += [
+    ("C08-zone-two-parts", "C08", FMT, '_MATCH_TIMEZONE = "[A-Za-z0-9-+]+(/[A-Za-z0-9-+_]+)*"', '_MATCH_TIMEZONE = "[A-Za-z0-9-+]+(/[A-Za-z0-9-+_]+)?"', "ZONE.regex"),
+    ("C08-extract-unanchored", "C08", FMT, '        self._get_parsed_values(m, parsed, loaded_locale, now)\n\n        return self._check_parsed(parsed, now)', '        self._get_parsed_values(re.search(pattern, time), parsed, loaded_locale, now)\n\n        return self._check_parsed(parsed, now)', "EXTRACT.anchored"),
+]
